@@ -1,6 +1,55 @@
-(* C17 — placeholder while the invariants are being proved (see Proofs/ExecProofs.v). *)
-From Coq Require Import List.
-From FB Require Import Model.Exec.
-Example C17_model_runs : exists nt s, run nt 1 (init nt) nil = Ok s.
-Proof. exists nil, (init nil). reflexivity. Qed.
-Print Assumptions C17_model_runs.
+(* C17 — Shutdown is bounded by the configured timeout even if nodes never finish.
+   Model: Model/Exec.v (main goroutine: MSelect / MDeliver / MCloseRoots / MWait / MDone; logical clock,
+   T = shutdown timeout in ticks).  Only statements here; proofs in Proofs/ExecMain.v.
+   PARTIAL by nature: wall-clock time is not in the model; the harness measures it (Judge/E1.v, clause 17.1:
+   Execute returned within T*1000+1500 ms of the source stopping). *)
+From Coq Require Import List ZArith Arith Bool.
+From FB Require Import Model.Exec Model.ExecInv Proofs.ExecMain.
+Import ListNotations.
+
+(* the full statement: whenever the source has stopped, Execute returns within T ticks whatever the nodes do *)
+Definition C17_full_statement : Prop :=
+  forall nt T s, reachable nt T s -> src s = SClosed ->
+    exists sch s', run nt T s sch = Ok s' /\ mn s' = MDone /\ forallb stalled sch = true.
+
+(* REFUTED on the faithful model of the current code (known finding F9): a root whose buffer is full and whose
+   only worker never returns keeps the main goroutine inside its blocking copy to that root; when the source
+   stops, no schedule in which the node keeps stalling ever lets Execute return, however many ticks pass. *)
+Theorem C17_full_statement_refuted :
+  exists s0, run f9_net 1 (init f9_net) f9_prefix = Ok s0 /\ src s0 = SClosed
+    /\ forall sch s', forallb stalled sch = true -> run f9_net 1 s0 sch = Ok s' -> mn s' <> MDone.
+Proof. exact shutdown_unbounded_when_main_blocked. Qed.
+
+(* what does hold, for every network, every state (reachable or not) and whatever all other goroutines do:
+   once the main goroutine is in waitTimeout, T ticks and its own timeout step suffice *)
+Theorem C17_wait_bounded_partial : forall nt T s,
+  mn s = MWait ->
+  exists s', run nt T s (repeat Tick (wstart s + T - clock s) ++ [MainTimeout]) = Ok s'
+             /\ mn s' = MDone /\ clock s' <= Nat.max (clock s) (wstart s + T).
+Proof. exact wait_bounded. Qed.
+
+(* prompt return: when every worker has returned Execute returns without waiting for a single tick *)
+Theorem C17_prompt : forall nt T s,
+  mn s = MWait -> all_exited s = true ->
+  exists s', step nt T s MainWgDone = Ok s' /\ mn s' = MDone /\ timedout s' = timedout s /\ clock s' = clock s.
+Proof. exact wait_prompt. Qed.
+
+(* the timeout never fires early, and the clean exit is taken only when all workers returned *)
+Theorem C17_timeout_not_early : forall nt T s s',
+  step nt T s MainTimeout = Ok s' -> mn s = MWait /\ wstart s + T <= clock s /\ timedout s' = true.
+Proof. exact timeout_not_early. Qed.
+Theorem C17_clean_exit_needs_all : forall nt T s s',
+  step nt T s MainWgDone = Ok s' -> mn s = MWait /\ all_exited s = true /\ timedout s' = timedout s.
+Proof. exact clean_exit_needs_all. Qed.
+
+(* non-vacuity: a state in waitTimeout with a stalled worker exists and leaves by the timeout *)
+Example C17_wait_state_exists :
+  exists s, run f9_net 1 (init f9_net) [SrcEmit 1%Z; MainSend; Deq 0 0; SrcReturnNil; MainSeeClosed; MainCloseRoots] = Ok s
+            /\ mn s = MWait /\ all_exited s = false.
+Proof. eexists. split; [vm_compute; reflexivity|]. split; reflexivity. Qed.
+
+Print Assumptions C17_full_statement_refuted.
+Print Assumptions C17_wait_bounded_partial.
+Print Assumptions C17_prompt.
+Print Assumptions C17_timeout_not_early.
+Print Assumptions C17_clean_exit_needs_all.
